@@ -375,18 +375,22 @@ def build_image(im, image_id, resolved):
             for f in rec.fields:
                 if f.get("flag") and f["key"] not in LINE_CONSTANTS and f["key"] not in ov:
                     ov[f["key"]] = (stretch + 1) % 2
-        if mode == "drift":
-            # consecutive lines differ by one unit of every wide numeric field (and 1 ms / 1 us)
+        if mode in ("drift", "bumpy", "bumpy-const"):
+            # consecutive lines differ by one unit of every wide numeric field (and 1 ms / 1 us); "bumpy": the same ramp except
+            # that lines 7 and 13 are one unit off it; "bumpy-const": constant except for those two lines
+            ramp = k
+            if mode != "drift":
+                ramp = (0 if mode == "bumpy-const" else k) + {7: 1, 13: -1}.get(k, 0)
             for f in rec.fields:
                 if f["key"] in LINE_CONSTANTS or f["key"] in ov or "enum" in f or f.get("flag") or is_spare(f["name"]):
                     continue
                 if f["kind"] == "B" and f["w"] >= 4:
-                    ov[f["key"]] = (3_000_000 + int.from_bytes(baseline_value(f, salt), "big") + k).to_bytes(f["w"], "big")
+                    ov[f["key"]] = (3_000_000 + int.from_bytes(baseline_value(f, salt), "big") + ramp).to_bytes(f["w"], "big")
                 elif f["kind"] == "ydms":
                     y, d, ms = struct.unpack(">III", baseline_value(f, salt))
-                    ov[f["key"]] = struct.pack(">III", y, d, ms + k)
+                    ov[f["key"]] = struct.pack(">III", y, d, ms + ramp)
                 elif f["kind"] == "us":
-                    ov[f["key"]] = struct.pack(">Q", struct.unpack(">Q", baseline_value(f, salt))[0] + k)
+                    ov[f["key"]] = struct.pack(">Q", struct.unpack(">Q", baseline_value(f, salt))[0] + ramp)
         for (field, line), value in im["line_values"].items():
             if line is None or line == k:
                 ov[field] = value
